@@ -593,11 +593,13 @@ fn sweep_oracle(c: &SweepCase, ctx: &mut Ctx) -> CaseResult {
 	let mut st = SweepStats::default();
 	let mut tags = vec![];
 	let mut batches = 0usize;
+	let mut sweep_failed = false;
 	// `sim` is mutated between the steps, the sweepers only borrow it while they are fed: keep the sweeper as
 	// persisted bytes between steps and re-create it from them (this *is* the round trip under test for the
 	// lagging copy; the leading copy is compared against an instance that never went through bytes within the step)
 	let mut fed: Vec<bitcoin::BlockHash> = sim.chain.blocks.iter().map(|b| b.block_hash()).collect();
-	let mut prev_bytes: Option<Vec<u8>> = None;
+	// the persisted image together with the chain view it corresponds to
+	let mut prev_bytes: Option<(Vec<u8>, Vec<bitcoin::BlockHash>)> = None;
 	let mut log_pos = sim.log.len();
 	for op in c.ops.iter() {
 		let Some(tag) = apply_guarded(&mut sim, &c.spec, op, ctx)? else { return Ok(()) };
@@ -611,7 +613,8 @@ fn sweep_oracle(c: &SweepCase, ctx: &mut Ctx) -> CaseResult {
 				fed = sim.chain.blocks.iter().map(|b| b.block_hash()).collect();
 				(new_sweeper(&rig_a, &sim, x), new_sweeper(&rig_b, &sim, x))
 			},
-			Some(b) => {
+			Some((b, fed_then)) => {
+				fed = fed_then.clone();
 				let a = reload_sweeper(&rig_a, &sim, x, b).map_err(|e| Failure::new("sweeper-read", format!("{:?}", e)).with_key("sweeper-read"))?;
 				let bb = reload_sweeper(&rig_b, &sim, x, b).map_err(|e| Failure::new("sweeper-read", format!("{:?}", e)).with_key("sweeper-read"))?;
 				st.reloads += 1;
@@ -631,8 +634,13 @@ fn sweep_oracle(c: &SweepCase, ctx: &mut Ctx) -> CaseResult {
 			}
 		}
 		log_pos = sim.log.len();
-		let _ = sw_a.regenerate_and_broadcast_spend_if_necessary();
-		let _ = sw_b.regenerate_and_broadcast_spend_if_necessary();
+		let ra = sw_a.regenerate_and_broadcast_spend_if_necessary();
+		let rb = sw_b.regenerate_and_broadcast_spend_if_necessary();
+		vensure!(ra == rb, "sweeper-twin", "after {}: sweep result {:?} vs {:?}", tag, ra, rb);
+		if ra.is_err() {
+			// the sweep (or persisting) failed: the state stays dirty in memory and the store legitimately lags
+			sweep_failed = true;
+		}
 		// same state, same inputs => same tracked outputs, tip and broadcasts
 		let (ta, tb) = (sw_a.tracked_spendable_outputs(), sw_b.tracked_spendable_outputs());
 		vensure!(render_tracked(&ta) == render_tracked(&tb), "sweeper-twin", "after {}: tracked outputs differ\n a: {:?}\n b: {:?}", tag, render_tracked(&ta), render_tracked(&tb));
@@ -658,7 +666,7 @@ fn sweep_oracle(c: &SweepCase, ctx: &mut Ctx) -> CaseResult {
 		}
 		// the persisted bytes: read back equal to the live instance; both copies persisted the same state
 		let bytes_a = rig_a.store.sweeper_bytes();
-		if let Some(b) = &bytes_a {
+		if let (Some(b), true) = (&bytes_a, ra.is_ok()) {
 			let rig_c = Rig::new(change.clone());
 			let sw_c = reload_sweeper(&rig_c, &sim, x, b).map_err(|e| Failure::new("sweeper-read", format!("{:?}", e)).with_key("sweeper-read"))?;
 			// the persisted image may lag the in-memory state only by what the block callbacks changed after the
@@ -678,7 +686,11 @@ fn sweep_oracle(c: &SweepCase, ctx: &mut Ctx) -> CaseResult {
 		for t in bc_a.iter() {
 			let _ = sim.chain.broadcast(t);
 		}
-		prev_bytes = bytes_a.or(prev_bytes);
+		if let Some(b) = bytes_a {
+			if prev_bytes.as_ref().map(|p| p.0 != b).unwrap_or(true) {
+				prev_bytes = Some((b, fed.clone()));
+			}
+		}
 	}
 	ctx.sub_evaluations(st.steps_compared);
 	ctx.label_if(st.tracked_max > 0, "sweeper:tracked-outputs");
@@ -687,9 +699,244 @@ fn sweep_oracle(c: &SweepCase, ctx: &mut Ctx) -> CaseResult {
 	ctx.label_if(st.pending_threshold, "sweeper:sweep-awaiting-threshold");
 	ctx.label_if(st.delayed, "sweeper:delayed-sweep");
 	ctx.label_if(st.reorgs > 0, "sweeper:reorg");
+	ctx.label_if(sweep_failed, "sweeper:a-sweep-attempt-failed");
 	ctx.label_if(st.store_compared > st.byte_equal_stores, "sweeper:twin-bytes-differ(signature-randomness/input-order)");
 	ctx.nontrivial_if(st.pending_first_conf || st.pending_threshold);
 	ctx.summary(json!({"ops": tags, "stats": format!("{:?}", st)}));
+	Ok(())
+}
+
+// ---------------------------------------------------------------------------------------------------
+// monitors in punishment histories: a revoked commitment with several HTLC outputs is confirmed, the
+// victim's aggregated justice package is in flight, and the cheater confirms one of its second-stage
+// transactions first (the victim's package is split)
+// ---------------------------------------------------------------------------------------------------
+
+#[derive(Clone, Debug, Serialize, Deserialize)]
+struct JusticeCase {
+	spec: WorldSpec,
+	/// amounts (fractions of the limit) of the payments victim -> cheater and cheater -> victim
+	v_to_x: Vec<u16>,
+	x_to_v: Vec<u16>,
+	/// cheater is the funder?
+	cheater_is_funder: bool,
+	/// resolve the payments by claiming (true) or failing them back before the old state is published
+	claim: Vec<bool>,
+	/// which of the cheater's second-stage transactions is confirmed first
+	which: u16,
+	/// blocks mined between revocation and publication of the old commitment (its HTLCs may have expired by then)
+	wait_blocks: u8,
+	/// blocks mined (empty) between the revoked commitment and the second-stage transaction beyond what its lock time needs
+	extra_blocks: u8,
+	tail: Vec<Op>,
+}
+
+fn justice_strat() -> impl Strategy<Value = JusticeCase> {
+	(
+		world_spec(vec![Topology::Pair]),
+		proptest::collection::vec(2000u16..30000, 1..4),
+		proptest::collection::vec(2000u16..30000, 1..4),
+		any::<bool>(),
+		proptest::collection::vec(proptest::bool::weighted(0.4), 8..9),
+		any::<u16>(),
+		0u8..4,
+		proptest::collection::vec(op_strategy(closing_weights()), 2..10),
+		prop_oneof![Just(0u8), 40u8..110, 55u8..75],
+	)
+		.prop_map(|(mut spec, v_to_x, x_to_v, cheater_is_funder, claim, which, extra_blocks, tail, wait_blocks)| {
+			// both sides need funds for non-dust HTLCs
+			spec.value_sat = vec![spec.value_sat[0].max(400_000)];
+			spec.push_permille = vec![500];
+			spec.max_accepted = spec.max_accepted.max(10);
+			spec.dust_exposure_fixed_msat = None;
+			spec.deferred = false;
+			// second-stage transactions of anchor channels need external funding and are not available from the
+			// monitor: most cases use the pre-anchor channel type
+			if which % 4 != 0 {
+				spec.ctype = CType::Static;
+			}
+			JusticeCase { spec, v_to_x, x_to_v, cheater_is_funder, claim, which, wait_blocks, extra_blocks, tail }
+		})
+}
+
+fn justice_oracle(c: &JusticeCase, ctx: &mut Ctx) -> CaseResult {
+	let mut sim = build_world_with_cheaters(&c.spec, true, vec![if c.cheater_is_funder { 0 } else { 1 }]);
+	sim.min_reorg_floor = sim.chain.height();
+	let phase_cell = std::cell::Cell::new("traffic");
+	let saved = take_last_panic();
+	let r = match std::panic::catch_unwind(std::panic::AssertUnwindSafe(|| justice_inner(c, ctx, &mut sim, &phase_cell))) {
+		Ok(r) => {
+			set_last_panic(saved);
+			r
+		},
+		Err(_) => {
+			// a panic while blocks were delivered: the round-trip assertion of TestChainMonitor is C12's own
+			// finding (keyed by phase like the harness's comparison), anything else is not C12's
+			let (msg, loc) = take_last_panic().unwrap_or_default();
+			if msg.contains("new_monitor == ") {
+				let phase = phase_cell.get();
+				let key = if phase == "after-cheater-second-stage" { "monitor-roundtrip-eq/justice-package-split".to_string() } else { format!("monitor-roundtrip-eq/justice/{}", phase) };
+				Err(Failure::new("monitor-roundtrip-eq", format!("panic at {}: {}", loc, msg)).with_key(key))
+			} else {
+				let short = loc.rsplit("/lightning/src/").next().unwrap_or(&loc).to_string();
+				ctx.label(&format!("foreign-failure:panic@{}", short));
+				Ok(())
+			}
+		},
+	};
+	if ctx.replay && r.is_err() {
+		println!("==== history ====\n{}", dump_history(&sim));
+	}
+	r
+}
+
+fn justice_inner(c: &JusticeCase, ctx: &mut Ctx, sim: &mut Sim, phase_cell: &std::cell::Cell<&'static str>) -> CaseResult {
+	let (x, v) = if c.cheater_is_funder { (0usize, 1usize) } else { (1, 0) };
+	let mut h = MonHarvest::new(sim, false);
+	let mut phase = "traffic";
+	// Monitor round-trip failures are keyed by the phase of the punishment history (that tells the finding
+	// classes apart): after the cheater's second-stage transaction split the victim's justice package the key
+	// is `monitor-roundtrip-eq/justice-package-split`, whether the harness's own comparison or the identical
+	// assertion inside TestChainMonitor::update_channel notices it first.
+	let rt_key = |phase: &str| if phase == "after-cheater-second-stage" { "monitor-roundtrip-eq/justice-package-split".to_string() } else { format!("monitor-roundtrip-eq/justice/{}", phase) };
+	let step = |h: &mut MonHarvest, sim: &Sim, chain: bool, phase: &str| -> CaseResult {
+		h.step(sim, chain).map_err(|mut f| {
+			f.key = if f.oracle == "monitor-roundtrip-eq" { rt_key(phase) } else { format!("{}/{}", f.key, phase) };
+			f
+		})
+	};
+	let japply = |sim: &mut Sim, op: &Op, phase: &str, ctx: &mut Ctx| -> Result<Option<&'static str>, Failure> {
+		apply_guarded(sim, &c.spec, op, ctx).map_err(|mut f| {
+			if f.detail.contains("new_monitor == ") {
+				f.key = rt_key(phase);
+				f.oracle = "monitor-roundtrip-eq".into();
+			}
+			f
+		})
+	};
+	// 1. HTLCs in both directions, committed on both sides
+	for (from, amts) in [(v, &c.v_to_x), (x, &c.x_to_v)] {
+		for a in amts.iter() {
+			let Some(amt) = resolve_amount(sim, from, 0, &Amt::Frac(*a)) else { continue };
+			let amt = amt.max(3_000_000).min(resolve_amount(sim, from, 0, &Amt::LimitMinus(0)).unwrap_or(0));
+			if amt == 0 {
+				continue;
+			}
+			sim.try_send(from, &[0], amt);
+			if japply(sim, &Op::Pump, phase, ctx)?.is_none() {
+			return Ok(());
+		}
+			step(&mut h, sim, false, phase)?;
+		}
+	}
+	let pending = sim.chan_details(x, 0).map(|d| d.pending_inbound_htlcs.len() + d.pending_outbound_htlcs.len()).unwrap_or(0);
+	if pending < 1 {
+		ctx.label("no-htlcs-committed");
+		return Ok(());
+	}
+	// 2. the cheater claims (some of) the payments it received - its monitor then knows the preimages, the
+	//    peer has not seen the fulfils yet - and keeps its current (soon revoked) commitment together with the
+	//    second-stage transactions (HTLC-success for what it can claim, HTLC-timeout for what it offered)
+	let mine: Vec<usize> = sim.pays.iter().filter(|p| p.state == PayState::Claimable && p.to == x).map(|p| p.idx).collect();
+	for (k, p) in mine.iter().enumerate() {
+		if c.claim[k % c.claim.len()] {
+			sim.claim(*p);
+			step(&mut h, sim, false, phase)?;
+		}
+	}
+	let chan_id = sim.chans[0].id;
+	let old_txs = {
+		let nd = &sim.w.nodes[x];
+		let m = nd.chain_monitor.chain_monitor.get_monitor(chan_id).map_err(|_| Failure::new("harness", "no monitor"))?;
+		m.unsafe_get_latest_holder_commitment_txn(&nd.logger)
+	};
+	ctx.label(&format!("revoked-commitment-htlc-txs:{}", (old_txs.len() - 1).min(4)));
+	// 3. the HTLCs are resolved off-chain: the kept commitment becomes revoked
+	let cands: Vec<usize> = sim.pays.iter().filter(|p| p.state == PayState::Claimable).map(|p| p.idx).collect();
+	for (k, p) in cands.iter().enumerate() {
+		if c.claim[k % c.claim.len()] {
+			sim.claim(*p);
+		} else {
+			sim.fail_back(*p);
+		}
+		if japply(sim, &Op::Pump, phase, ctx)?.is_none() {
+			return Ok(());
+		}
+		step(&mut h, sim, false, phase)?;
+	}
+	if !sim.settle(30) {
+		ctx.label("not-quiescent");
+		return Ok(());
+	}
+	step(&mut h, sim, false, phase)?;
+	// 4. (later) the revoked commitment confirms
+	for _ in 0..c.wait_blocks {
+		sim.mine_block(vec![]);
+	}
+	if c.wait_blocks > 0 {
+		if japply(sim, &Op::Pump, phase, ctx)?.is_none() {
+			return Ok(());
+		}
+		step(&mut h, sim, true, phase)?;
+		ctx.label(if c.wait_blocks >= 72 { "published-after-htlc-expiry" } else { "published-late" });
+	}
+	phase = "revoked-commitment-confirmed";
+	phase_cell.set(phase);
+	let _ = sim.chain.broadcast(&old_txs[0]);
+	let rejected = sim.mine_block(vec![old_txs[0].clone()]);
+	if !rejected.is_empty() {
+		ctx.label("revoked-commitment-rejected");
+		return Ok(());
+	}
+	step(&mut h, sim, true, phase)?;
+	if japply(sim, &Op::Pump, phase, ctx)?.is_none() {
+			return Ok(());
+		}
+	step(&mut h, sim, false, phase)?;
+	let justice_in_flight = sim.broadcasts[v].iter().any(|t| t.input.iter().any(|i| i.previous_output.txid == old_txs[0].compute_txid()));
+	ctx.label_if(justice_in_flight, "justice-transaction-in-flight");
+	// 5. the cheater's second-stage transaction confirms first (the victim's justice transactions are not mined)
+	if old_txs.len() > 1 {
+		let t = &old_txs[1 + pick(c.which, old_txs.len() - 1)];
+		let lt = t.lock_time.to_consensus_u32();
+		let mut guard = 0;
+		while (sim.chain.height() + 1 <= lt && lt < 500_000_000) && guard < 400 {
+			sim.mine_block(vec![]);
+			guard += 1;
+			step(&mut h, sim, true, phase)?;
+		}
+		for _ in 0..c.extra_blocks {
+			sim.mine_block(vec![]);
+			step(&mut h, sim, true, phase)?;
+		}
+		phase = "after-cheater-second-stage";
+		phase_cell.set(phase);
+		let _ = sim.chain.broadcast(t);
+		let rejected = sim.mine_block(vec![t.clone()]);
+		ctx.label(if rejected.is_empty() { "cheater-second-stage-confirmed" } else { "cheater-second-stage-rejected" });
+		ctx.label(if lt == 0 { "second-stage:htlc-success" } else { "second-stage:htlc-timeout" });
+		if std::env::var("C12_DEBUG").is_ok() {
+			vcore::report(&format!("SECOND-STAGE locktime {} rejected {:?} height {}", lt, rejected, sim.chain.height()));
+		}
+		step(&mut h, sim, true, phase)?;
+		if japply(sim, &Op::Pump, phase, ctx)?.is_none() {
+			return Ok(());
+		}
+		step(&mut h, sim, false, phase)?;
+	}
+	// 6. whatever follows
+	for op in c.tail.iter() {
+		let Some(tag) = japply(sim, op, phase, ctx)? else { return Ok(()) };
+		step(&mut h, sim, is_chain_tag(tag), phase)?;
+	}
+	let st = &h.stats;
+	ctx.sub_evaluations(st.images + st.live_snapshots + st.updates);
+	ctx.label_if(st.states_pending_claims > 0, "state:pending-claims");
+	ctx.label_if(st.states_awaiting_conf > 0, "state:onchain-awaiting-conf");
+	ctx.nontrivial_if(justice_in_flight);
+	if std::env::var("C12_DEBUG").is_ok() {
+		vcore::report(&format!("JUSTICE ctype={:?} htlc_txs={} justice_in_flight={} pending_claims={} images={} strict={} lenient_ok={} unverifiable={}", c.spec.ctype, old_txs.len() - 1, justice_in_flight, st.states_pending_claims, st.images, st.commute_strict, st.commute_lenient_ok, st.commute_unverifiable));
+	}
 	Ok(())
 }
 
@@ -700,6 +947,7 @@ fn main() {
 	c.part_with(PartSpec { name: "manager-twin", rule: "wip", quick_cases: 300, thorough_cases: 10_000, max_shrink: 300 }, twin_strat, twin_oracle);
 	c.part_with(PartSpec { name: "corruptions", rule: "wip", quick_cases: 150, thorough_cases: 5_000, max_shrink: 200 }, corrupt_strat, corrupt_oracle);
 	c.part_with(PartSpec { name: "graph-scorer", rule: "wip", quick_cases: 600, thorough_cases: 20_000, max_shrink: 1000 }, score_strat, score_oracle);
+	c.part_with(PartSpec { name: "justice-monitors", rule: "wip", quick_cases: 150, thorough_cases: 5_000, max_shrink: 200 }, justice_strat, justice_oracle);
 	c.part_with(PartSpec { name: "sweeper", rule: "wip", quick_cases: 300, thorough_cases: 10_000, max_shrink: 300 }, sweep_strat, sweep_oracle);
 	c.finish();
 }
